@@ -182,6 +182,116 @@ impl CtPlacement {
     }
 }
 
+/// How a streamed body (`Body::from_reader`) hands out its bytes.
+#[derive(Debug, Clone, Copy, PartialEq, Eq, serde::Serialize, serde::Deserialize)]
+pub enum Delivery {
+    /// as much as the caller's buffer takes
+    AllAtOnce,
+    /// one byte per read
+    OneByte,
+    /// seven bytes per read
+    Seven,
+    /// seven bytes per read, `Poll::Pending` (with an immediate wake) between the chunks
+    SevenPendingBetween,
+}
+pub const DELIVERIES: &[Delivery] =
+    &[Delivery::AllAtOnce, Delivery::OneByte, Delivery::Seven, Delivery::SevenPendingBetween];
+
+/// Declared length handed to `Body::from_reader`: the exact length or `None`. A declared length
+/// that differs from the data is left out: crux documents no behaviour for it.
+pub const DECLARED: &[bool] = &[true, false];
+
+#[derive(Debug, Clone, Copy, PartialEq, Eq, serde::Serialize, serde::Deserialize)]
+pub struct StreamIx {
+    pub content: usize,
+    /// index into DECLARED
+    pub declared: usize,
+    pub delivery: usize,
+}
+
+pub fn stream_contents() -> Vec<(&'static str, Vec<u8>)> {
+    let pattern = |n: usize| -> Vec<u8> { (0..n).map(|i| (i.wrapping_mul(131) ^ (i >> 8)) as u8).collect() };
+    vec![
+        ("empty", vec![]),
+        ("1-byte", vec![0xa5]),
+        ("6-bytes", b"sixsix".to_vec()),
+        ("7-bytes", b"7 bytes".to_vec()),
+        ("8-bytes", b"8 bytes!".to_vec()),
+        ("41-bytes-binary", b"streamed \x00\xff body, a few dozen bytes long".to_vec()),
+        ("1024-bytes", pattern(1024)),
+        ("1025-bytes", pattern(1025)),
+        ("64KiB", pattern(65536)),
+    ]
+}
+
+/// A reader that hands out its data in the chunks `Delivery` says. Returning `Pending` after
+/// waking the task is ordinary `AsyncRead` behaviour: the executor polls again.
+struct ChunkReader {
+    data: Vec<u8>,
+    pos: usize,
+    delivery: Delivery,
+    /// a `Pending` has been returned for the chunk at `pos`
+    yielded_at: Option<usize>,
+}
+
+impl ChunkReader {
+    fn chunk(&self, room: usize) -> usize {
+        let left = self.data.len() - self.pos;
+        let k = match self.delivery {
+            Delivery::AllAtOnce => usize::MAX,
+            Delivery::OneByte => 1,
+            Delivery::Seven | Delivery::SevenPendingBetween => 7,
+        };
+        left.min(k).min(room)
+    }
+    fn must_yield(&mut self, cx: &mut std::task::Context<'_>) -> bool {
+        if self.delivery == Delivery::SevenPendingBetween
+            && self.pos > 0
+            && self.pos < self.data.len()
+            && self.yielded_at != Some(self.pos)
+        {
+            self.yielded_at = Some(self.pos);
+            cx.waker().wake_by_ref();
+            return true;
+        }
+        false
+    }
+}
+
+impl futures::io::AsyncRead for ChunkReader {
+    fn poll_read(
+        mut self: std::pin::Pin<&mut Self>,
+        cx: &mut std::task::Context<'_>,
+        buf: &mut [u8],
+    ) -> std::task::Poll<std::io::Result<usize>> {
+        if self.must_yield(cx) {
+            return std::task::Poll::Pending;
+        }
+        let n = self.chunk(buf.len());
+        let pos = self.pos;
+        buf[..n].copy_from_slice(&self.data[pos..pos + n]);
+        self.pos += n;
+        std::task::Poll::Ready(Ok(n))
+    }
+}
+
+impl futures::io::AsyncBufRead for ChunkReader {
+    fn poll_fill_buf(
+        self: std::pin::Pin<&mut Self>,
+        cx: &mut std::task::Context<'_>,
+    ) -> std::task::Poll<std::io::Result<&[u8]>> {
+        let this = self.get_mut();
+        if this.must_yield(cx) {
+            return std::task::Poll::Pending;
+        }
+        let n = this.chunk(usize::MAX);
+        std::task::Poll::Ready(Ok(&this.data[this.pos..this.pos + n]))
+    }
+    fn consume(mut self: std::pin::Pin<&mut Self>, amt: usize) {
+        self.pos += amt;
+    }
+}
+
 /// Typed values handed to `body_json(&impl Serialize)`. The documented encoding of a JSON body is
 /// serde_json's serialisation of the value the app passed, so these are compared byte for byte
 /// with `serde_json::to_vec(&value)`: a detour through `serde_json::Value` (sorted keys, f32
@@ -300,6 +410,8 @@ pub enum BodySpec {
     Reader(Vec<u8>, bool),
     /// `.body(&str)` through `Into<Body>`
     IntoStr(&'static str),
+    /// `.body(Body::from_reader(ChunkReader, declared))`
+    Stream { data: Vec<u8>, declared_exact: bool, delivery: Delivery },
 }
 
 pub fn bodies() -> Vec<(&'static str, BodySpec)> {
@@ -391,11 +503,39 @@ pub enum Ctor {
     Request,
 }
 pub const APIS: &[Api] = &[Api::Command, Api::Capability];
+/// URL and header set the streamed-body part runs on
+const STREAM_URL: usize = 5;
+const STREAM_HEADERS: usize = 3;
 pub const CTORS: &[Ctor] = &[Ctor::Named, Ctor::Request];
 
 pub struct Alphabets {
     pub header_sets: Vec<HeaderSet>,
     pub bodies: Vec<(&'static str, BodySpec)>,
+    pub stream_contents: Vec<(&'static str, Vec<u8>)>,
+}
+
+/// The body of a case: a member of the body alphabet, or a streamed body.
+pub fn body_spec_of(ix: CaseIx, al: &Alphabets) -> BodySpec {
+    match ix.stream {
+        None => al.bodies[ix.body].1.clone(),
+        Some(st) => BodySpec::Stream {
+            data: al.stream_contents[st.content].1.clone(),
+            declared_exact: DECLARED[st.declared],
+            delivery: DELIVERIES[st.delivery],
+        },
+    }
+}
+
+pub fn body_name(ix: CaseIx, al: &Alphabets) -> String {
+    match ix.stream {
+        None => al.bodies[ix.body].0.to_string(),
+        Some(st) => format!(
+            "stream {} declared {} delivered {:?}",
+            al.stream_contents[st.content].0,
+            if DECLARED[st.declared] { "Some(exact length)" } else { "None" },
+            DELIVERIES[st.delivery]
+        ),
+    }
 }
 
 #[derive(Debug, Clone, Copy, PartialEq, Eq, serde::Serialize, serde::Deserialize)]
@@ -409,6 +549,9 @@ pub struct CaseIx {
     pub query: usize,
     #[serde(default)]
     pub ct: usize,
+    /// streamed-body part: `body` is ignored when this is set
+    #[serde(default)]
+    pub stream: Option<StreamIx>,
 }
 
 // ---------------------------------------------------------------------------------------------
@@ -449,7 +592,7 @@ fn documented_content_type(body: &BodySpec) -> Option<&'static str> {
     match body {
         BodySpec::None => None,
         BodySpec::Str(_) | BodySpec::IntoStr(_) => Some("text/plain;charset=utf-8"),
-        BodySpec::Bytes(_) | BodySpec::Reader(..) => Some("application/octet-stream"),
+        BodySpec::Bytes(_) | BodySpec::Reader(..) | BodySpec::Stream { .. } => Some("application/octet-stream"),
         BodySpec::Json(_) | BodySpec::Typed(_) => Some("application/json"),
         BodySpec::Form(_) => Some("application/x-www-form-urlencoded"),
     }
@@ -457,7 +600,7 @@ fn documented_content_type(body: &BodySpec) -> Option<&'static str> {
 
 pub fn expected_for(ix: CaseIx, al: &Alphabets) -> Expected {
     let hs = &al.header_sets[ix.headers];
-    let body = &al.bodies[ix.body].1;
+    let body = &body_spec_of(ix, al);
     // `.header(name, v)` is documented as "Sets a header": last write per (case-insensitive) name wins.
     let mut map: Vec<(String, Vec<String>)> = vec![];
     for ops in [&hs.before_body, &hs.after_body] {
@@ -494,6 +637,7 @@ pub fn expected_for(ix: CaseIx, al: &Alphabets) -> Expected {
         BodySpec::IntoStr(s) => BodyExpect::Bytes(s.as_bytes().to_vec()),
         BodySpec::Bytes(b) => BodyExpect::Bytes(b.clone()),
         BodySpec::Reader(b, _) => BodyExpect::Bytes(b.clone()),
+        BodySpec::Stream { data, .. } => BodyExpect::Bytes(data.clone()),
         // the documented encoding of a JSON body is serde_json's serialisation of the value passed
         BodySpec::Json(v) => BodyExpect::Bytes(serde_json::to_vec(v).expect("json alphabet value")),
         BodySpec::Typed(t) => BodyExpect::Bytes(t.to_vec()),
@@ -617,7 +761,11 @@ pub fn compare(exp: &Expected, body_spec: &BodySpec, got: &HttpRequest) -> Optio
     };
     if !body_ok {
         let key = match (body_spec, got.body.is_empty()) {
-            (BodySpec::Reader(_, false), true) => "request/body-dropped-unknown-length",
+            (BodySpec::Reader(_, false) | BodySpec::Stream { declared_exact: false, .. }, true) => {
+                "request/body-dropped-unknown-length"
+            }
+            (BodySpec::Stream { data, .. }, false) if data.starts_with(&got.body) => "request/streamed-body-truncated",
+            (BodySpec::Stream { .. }, false) => "request/streamed-body-altered",
             (BodySpec::Json(_) | BodySpec::Typed(_), false)
                 if serde_json::from_slice::<Value>(&got.body).is_ok() =>
             {
@@ -697,6 +845,10 @@ macro_rules! apply_case {
                 if *known { Some(x.len()) } else { None },
             )),
             BodySpec::IntoStr(s) => b.body(*s),
+            BodySpec::Stream { data, declared_exact, delivery } => b.body(crux_http::http::Body::from_reader(
+                ChunkReader { data: data.clone(), pos: 0, delivery: *delivery, yielded_at: None },
+                if *declared_exact { Some(data.len()) } else { None },
+            )),
         };
         let b = apply_hops!(b, &ct_after);
         let b = apply_hops!(b, &$hs.after_body);
@@ -715,7 +867,7 @@ fn start(ix: CaseIx, al: &Arc<Alphabets>) -> (Host, crate::app::Step) {
     match APIS[ix.api] {
         Api::Command => {
             let hs = &al.header_sets[ix.headers];
-            let body = &al.bodies[ix.body].1;
+            let body = &body_spec_of(ix, al);
             let b = match CTORS[ix.ctor] {
                 Ctor::Request => CmdHttp::request(method, url_in.parse().unwrap()),
                 Ctor::Named => match method {
@@ -739,7 +891,7 @@ fn start(ix: CaseIx, al: &Arc<Alphabets>) -> (Host, crate::app::Step) {
             let al = al.clone();
             let program: Program = Arc::new(move |caps: &Capabilities| {
                 let hs = &al.header_sets[ix.headers];
-                let body = &al.bodies[ix.body].1;
+                let body = &body_spec_of(ix, &al);
                 let http = &caps.http;
                 let b = match CTORS[ix.ctor] {
                     Ctor::Request => http.request(method, url_in.parse().unwrap()),
@@ -776,7 +928,7 @@ pub struct CaseResult {
 
 pub fn run_case(ix: CaseIx, al: &Arc<Alphabets>, verbose: bool) -> CaseResult {
     let exp = expected_for(ix, al);
-    let body_spec = al.bodies[ix.body].1.clone();
+    let body_spec = body_spec_of(ix, al);
     let mut trace = vec![];
     let mut transitions = 0u64;
     let al2 = al.clone();
@@ -909,7 +1061,7 @@ pub fn describe_case(ix: CaseIx, al: &Alphabets) -> Value {
         "method": METHODS[ix.method].0,
         "url": URLS[ix.url].0,
         "headers": al.header_sets[ix.headers].name,
-        "body": al.bodies[ix.body].0,
+        "body": body_name(ix, al),
         "query": format!("{:?}", QUERIES[ix.query]),
         "content_type": format!("{:?}", CT_PLACEMENTS[ix.ct]),
     })
@@ -917,7 +1069,8 @@ pub fn describe_case(ix: CaseIx, al: &Alphabets) -> Value {
 
 fn case_size(ix: CaseIx) -> usize {
     // smaller indices = simpler alphabet members; APIs/ctors weigh least
-    (ix.headers + ix.body + ix.query + ix.url + ix.ct) * 8 + ix.method * 2 + ix.api + ix.ctor
+    let stream = ix.stream.map_or(0, |st| 100 + st.content * 16 + st.delivery * 2 + st.declared);
+    (ix.headers + ix.body + ix.query + ix.url + ix.ct + stream) * 8 + ix.method * 2 + ix.api + ix.ctor
 }
 
 fn self_checks(al: &Arc<Alphabets>) -> Value {
@@ -940,8 +1093,8 @@ fn self_checks(al: &Arc<Alphabets>) -> Value {
     // canary: `compare` must accept a faithful rendering of the description and reject it for
     // every wrong description. The observation is synthetic, so the canary judges the
     // comparison, not crux.
-    let ix = CaseIx { api: 0, ctor: 0, method: 2, url: 5, headers: 5, body: 2, query: 0, ct: 0 };
-    let body_spec = &al.bodies[ix.body].1;
+    let ix = CaseIx { api: 0, ctor: 0, method: 2, url: 5, headers: 5, body: 2, query: 0, ct: 0, stream: None };
+    let body_spec = &body_spec_of(ix, al);
     let exp = expected_for(ix, al);
     let mut headers: Vec<crux_http::protocol::HttpHeader> = exp
         .headers
@@ -1019,7 +1172,7 @@ fn sorted_op(op: &HttpRequest) -> (String, String, Vec<(String, String)>, Vec<u8
 }
 
 pub fn alphabets() -> Arc<Alphabets> {
-    Arc::new(Alphabets { header_sets: header_sets(), bodies: bodies() })
+    Arc::new(Alphabets { header_sets: header_sets(), bodies: bodies(), stream_contents: stream_contents() })
 }
 
 pub fn replay(path: &str) -> i32 {
@@ -1068,42 +1221,81 @@ pub fn run(tier: Tier) -> i32 {
             }
         }
     }
-    let parts = par_map(&chunks, |_, &(api, ctor, method, url)| {
+    let account = |agg: &mut Agg, ix: CaseIx, nontrivial: bool| {
+        let r = run_case(ix, &al, false);
+        agg.evaluations += 1;
+        agg.nontrivial += nontrivial as u64;
+        agg.transitions += r.transitions;
+        agg.validated += r.validated as u64;
+        agg.outcome(&r.outcome);
+        if let Some(op) = &r.observed {
+            agg.distinct_obs.insert(mc_kit::fnv64(format!("{:?}", sorted_op(op)).as_bytes()));
+        }
+        agg.samples.offer(|| {
+            let mut d = describe_case(ix, &al);
+            d["observed"] = json!(r.observed.as_ref().map(|o| format!("{o:?} headers={:?}", o.headers)));
+            d["verdict"] = json!(r.outcome);
+            d
+        });
+        if let Some((key, detail)) = r.finding {
+            agg.violation(Violation {
+                key: key.clone(),
+                what: format!("{} :: {}", describe_case(ix, &al), detail),
+                replay: describe_case(ix, &al),
+                size: case_size(ix),
+            });
+        }
+    };
+    let mut parts = par_map(&chunks, |_, &(api, ctor, method, url)| {
         let mut agg = Agg::new();
         for headers in 0..al.header_sets.len() {
             for body in 0..al.bodies.len() {
                 for (query, ct) in (0..QUERIES.len()).flat_map(|q| (0..CT_PLACEMENTS.len()).map(move |c| (q, c))) {
-                    let ix = CaseIx { api, ctor, method, url, headers, body, query, ct };
-                    let r = run_case(ix, &al, false);
-                    agg.evaluations += 1;
-                    if headers != 0 || body != 0 || query != 0 || ct != 0 {
-                        agg.nontrivial += 1;
-                    }
-                    agg.transitions += r.transitions;
-                    agg.validated += r.validated as u64;
-                    agg.outcome(&r.outcome);
-                    if let Some(op) = &r.observed {
-                        agg.distinct_obs.insert(mc_kit::fnv64(format!("{:?}", sorted_op(op)).as_bytes()));
-                    }
-                    agg.samples.offer(|| {
-                        let mut d = describe_case(ix, &al);
-                        d["observed"] = json!(r.observed.as_ref().map(|o| format!("{o:?} headers={:?}", o.headers)));
-                        d["verdict"] = json!(r.outcome);
-                        d
-                    });
-                    if let Some((key, detail)) = r.finding {
-                        agg.violation(Violation {
-                            key: key.clone(),
-                            what: format!("{} :: {}", describe_case(ix, &al), detail),
-                            replay: describe_case(ix, &al),
-                            size: case_size(ix),
-                        });
-                    }
+                    let ix = CaseIx { api, ctor, method, url, headers, body, query, ct, stream: None };
+                    account(&mut agg, ix, headers != 0 || body != 0 || query != 0 || ct != 0);
                 }
             }
         }
         agg
     });
+    let wall_main = reporter.elapsed();
+    // streamed bodies ("body source" dimension): apis x constructors x methods x contents x
+    // declared length x delivery x content-type placements, on one URL and one header set
+    let mut stream_chunks = vec![];
+    for api in 0..APIS.len() {
+        for ctor in 0..CTORS.len() {
+            for method in 0..METHODS.len() {
+                for content in 0..al.stream_contents.len() {
+                    stream_chunks.push((api, ctor, method, content));
+                }
+            }
+        }
+    }
+    let stream_parts = par_map(&stream_chunks, |_, &(api, ctor, method, content)| {
+        let mut agg = Agg::new();
+        for declared in 0..DECLARED.len() {
+            for delivery in 0..DELIVERIES.len() {
+                for ct in 0..CT_PLACEMENTS.len() {
+                    let ix = CaseIx {
+                        api,
+                        ctor,
+                        method,
+                        url: STREAM_URL,
+                        headers: STREAM_HEADERS,
+                        body: 0,
+                        query: 0,
+                        ct,
+                        stream: Some(StreamIx { content, declared, delivery }),
+                    };
+                    account(&mut agg, ix, true);
+                }
+            }
+        }
+        agg
+    });
+    let stream_cases: u64 = stream_parts.iter().map(|a| a.evaluations).sum();
+    let wall_stream = reporter.elapsed() - wall_main;
+    parts.extend(stream_parts);
     let total = util::merge_all(parts, 12);
     // every reported minimal case must reproduce (determinism of the harness)
     for (k, (v, _)) in &total.violations {
@@ -1114,7 +1306,8 @@ pub fn run(tier: Tier) -> i32 {
         }
     }
     let occurrences = total.report(&reporter);
-    let product = chunks.len() * al.header_sets.len() * al.bodies.len() * QUERIES.len() * CT_PLACEMENTS.len();
+    let stream_product = stream_chunks.len() * DECLARED.len() * DELIVERIES.len() * CT_PLACEMENTS.len();
+    let product = chunks.len() * al.header_sets.len() * al.bodies.len() * QUERIES.len() * CT_PLACEMENTS.len() + stream_product;
     util::require_nonvacuous("C14", total.nontrivial, total.distinct_obs.len());
     let coverage = json!({
         "states": total.evaluations,
@@ -1122,9 +1315,12 @@ pub fn run(tier: Tier) -> i32 {
         "traces_validated_against_impl": total.validated,
         "evaluations": total.evaluations,
         "distinct_nontrivial": total.nontrivial,
-        "rule": "bounded-exhaustive cartesian product (model_checking by exhaustive enumeration of a finite input space, no sampling): apis x constructors x methods x urls x header-sets x bodies x content-type placements (none / set before the body call / set after it, through header() and through content_type()) x query-structs, each case built through the real builders and run to the emitted effect, the bridge encoding round trip and the answering event; cases are distinct by construction (distinct index tuples over duplicate-free alphabets, checked at start); non-trivial = has at least one header op, a body, a content type of its own or a query struct",
+        "rule": "bounded-exhaustive cartesian product (model_checking by exhaustive enumeration of a finite input space, no sampling): apis x constructors x methods x urls x header-sets x bodies x content-type placements (none / set before the body call / set after it, through header() and through content_type()) x query-structs, plus the streamed-body part (Body::from_reader over a reader that hands out its data all at once / 1 byte per read / 7 bytes per read / 7 bytes with Pending between chunks, declared length exact or None); each case built through the real builders and run to the emitted effect, the bridge encoding round trip and the answering event; cases are distinct by construction (distinct index tuples over duplicate-free alphabets, checked at start); non-trivial = has at least one header op, a body, a content type of its own or a query struct",
         "exhaustive": total.evaluations as usize == product,
         "product_size": product,
+        "streamed_body_cases": stream_cases,
+        "wall_s_main_product": wall_main,
+        "wall_s_streamed_part": wall_stream,
         "alphabets": {
             "apis": APIS.iter().map(|a| format!("{a:?}")).collect::<Vec<_>>(),
             "constructors": CTORS.iter().map(|a| format!("{a:?}")).collect::<Vec<_>>(),
@@ -1135,6 +1331,15 @@ pub fn run(tier: Tier) -> i32 {
                 BodySpec::Bytes(x) | BodySpec::Reader(x, _) if x.len() > 64 => format!("{n}: {}", util::show_bytes(x)),
                 other => format!("{n}: {other:?}"),
             }).collect::<Vec<_>>(),
+            "streamed_body_part": {
+                "product": "apis x constructors x methods x contents x declared length x delivery x content-type placements",
+                "url": URLS[STREAM_URL].0,
+                "header_set": al.header_sets[STREAM_HEADERS].name,
+                "contents": al.stream_contents.iter().map(|(n, b)| format!("{n}: {}", util::show_bytes(b))).collect::<Vec<_>>(),
+                "declared_length": ["Some(exact)", "None"],
+                "delivery": DELIVERIES.iter().map(|d| format!("{d:?}")).collect::<Vec<_>>(),
+                "left_out": "a declared length that differs from the data (crux documents no behaviour for it)",
+            },
             "content_type_placements": CT_PLACEMENTS.iter().map(|c| format!("{c:?} -> {:?}", c.op())).collect::<Vec<_>>(),
             "query_structs": QUERIES.iter().map(|q| format!("{q:?} -> {:?}", q.pairs())).collect::<Vec<_>>(),
         },
